@@ -315,9 +315,13 @@ Lemma svc_open_spec : forall s p s' r, svc_open s p = (s', r) ->
   futs s' = futs s /\ conn s' = conn s /\ mgr s' = mgr s /\ nsid s <= nsid s' /\
   (forall sid, r = Some sid -> sid = nsid s /\ nsid s' = nsid s + 1).
 Proof.
-  intros s p s' r. unfold svc_open. destruct (aget p (conn s)) as [[|] |]; intro H; inversion H; subst; cbn;
-    repeat split; try reflexivity; try lia; try discriminate;
-    try (inversion H0; lia); try (injection H0; lia).
+  intros s p s' r. unfold svc_open.
+  assert (K : forall sid : N, Some (nsid s) = Some sid -> sid = nsid s /\ nsid (w_nsid s (nsid s + 1)) = nsid s + 1).
+  { intros sid E. inversion E. split; reflexivity. }
+  destruct (aget p (conn s)) as [[|] |]; intro H; inversion H; subst; proj;
+    (split; [reflexivity |]); (split; [reflexivity |]); (split; [reflexivity |]); (split; [reflexivity |]);
+    (split; [reflexivity |]); (split; [reflexivity |]); (split; [reflexivity |]); (split; [lia |]);
+    first [exact K | intros sid E; discriminate E].
 Qed.
 
 Lemma pacts_get : forall s p acts, aget p (peers s) = Some acts -> pacts s p = acts.
@@ -1907,3 +1911,716 @@ Lemma default_config :
   1 <= V.gen.Consts.PARALLELISM_FACTOR /\ 0 < V.gen.Consts.KAD_READ_TIMEOUT_SECS /\
   0 < V.gen.Consts.KAD_WRITE_TIMEOUT_SECS.
 Proof. unfold V.gen.Consts.PARALLELISM_FACTOR, V.gen.Consts.KAD_READ_TIMEOUT_SECS, V.gen.Consts.KAD_WRITE_TIMEOUT_SECS. lia. Qed.
+
+(* ------------------------------------------------------------------ quorum honesty *)
+
+(* what engine calls other than register_send_success never change in a query *)
+Definition qrel (x x' : qstate) : Prop :=
+  match x, x' with
+  | QLookup lk qr _ _, QLookup lk' qr' _ _ => lk' = lk /\ qr' = qr
+  | QToPeers qr ps, QToPeers qr' ps' => qr' = qr /\ ps' = ps
+  | QTrack pv pd n need, QTrack pv' pd' n' need' =>
+      pv' = pv /\ n' = n /\ need' = need /\ (forall p, In p pd' -> In p pd)
+  | _, _ => False
+  end.
+
+Lemma qrel_refl : forall x, qrel x x.
+Proof. intros [lk qr c ls | qr ps | pv pd n need]; cbn; auto. Qed.
+
+Lemma qrel_trans : forall a b c, qrel a b -> qrel b c -> qrel a c.
+Proof.
+  intros [lk qr c0 ls | qr ps | pv pd n need] [lk1 qr1 c1 ls1 | qr1 ps1 | pv1 pd1 n1 need1]
+         [lk2 qr2 c2 ls2 | qr2 ps2 | pv2 pd2 n2 need2]; cbn; try tauto.
+  - intros [A B] [C D]. split; congruence.
+  - intros [A B] [C D]. split; congruence.
+  - intros (A & B & C & D) (E & F & G & H). repeat split; try congruence. auto.
+Qed.
+
+Definition eng_rel (s s' : st) : Prop :=
+  forall q x', aget q (eng s') = Some x' -> exists x, aget q (eng s) = Some x /\ qrel x x'.
+
+Lemma eng_rel_refl : forall s, eng_rel s s.
+Proof. intros s q x H. exists x. split; [exact H | apply qrel_refl]. Qed.
+
+Lemma eng_rel_trans : forall a b c, eng_rel a b -> eng_rel b c -> eng_rel a c.
+Proof.
+  intros a b c H1 H2 q x H. destruct (H2 q x H) as (y & Hy & R1). destruct (H1 q y Hy) as (z & Hz & R2).
+  exists z. split; [exact Hz | eapply qrel_trans; eassumption].
+Qed.
+
+Lemma eng_rel_eng : forall s s', eng s' = eng s -> eng_rel s s'.
+Proof. intros s s' E q x H. rewrite E in H. exists x. split; [exact H | apply qrel_refl]. Qed.
+
+Lemma eng_rel_upd : forall s q f, (forall x, qrel x (f x)) -> eng_rel s (upd_q s q f).
+Proof.
+  intros s q f Hf q' x'. rewrite upd_q_get. destruct (q' =? q).
+  - destruct (aget q' (eng s)) as [x |]; cbn [option_map]; [| discriminate]. intro H. inversion H. subst x'.
+    exists x. split; [reflexivity | apply Hf].
+  - intro H. exists x'. split; [exact H | apply qrel_refl].
+Qed.
+
+Lemma qrel_send_fail : forall p x, qrel x (q_send_fail p x).
+Proof.
+  intros p [lk qr c ls | qr ps | pv pd n need]; cbn; auto. repeat split; auto.
+  intros p0 H. apply nremove_In in H. apply H.
+Qed.
+Lemma qrel_resp_fail : forall p x, qrel x (q_resp_fail p x).
+Proof. intros p [lk qr c ls | qr ps | pv pd n need]; cbn; auto. Qed.
+Lemma qrel_response : forall p m x, qrel x (q_response p m x).
+Proof.
+  intros p m [lk qr c ls | qr ps | pv pd n need]; cbn [q_response]; [| apply qrel_refl | apply qrel_refl].
+  destruct lk, m; cbn; auto.
+Qed.
+
+Lemma eng_rel_fail : forall s q p, eng_rel s (eng_fail s q p).
+Proof.
+  intros. unfold eng_fail, eng_resp_fail, eng_send_fail.
+  eapply eng_rel_trans; apply eng_rel_upd; [apply qrel_send_fail | apply qrel_resp_fail].
+Qed.
+
+Lemma eng_rel_fold : forall A (f : st -> A -> st) l,
+  (forall s a, eng_rel s (f s a)) -> forall s, eng_rel s (fold_left f l s).
+Proof.
+  intros A f l H. induction l as [| a t IH]; intro s; cbn [fold_left]; [apply eng_rel_refl |].
+  eapply eng_rel_trans; [apply H | apply IH].
+Qed.
+
+Lemma eng_rel_disconnect : forall s p qo, eng_rel s (disconnect_peer s p qo).
+Proof.
+  intros s p qo. unfold disconnect_peer.
+  set (s1 := match qo with Some q => eng_fail s q p | None => s end).
+  assert (L1 : eng_rel s s1) by (subst s1; destruct qo; [apply eng_rel_fail | apply eng_rel_refl]).
+  destruct (aget p (peers s1)); [| exact L1].
+  eapply eng_rel_trans; [exact L1 |]. eapply eng_rel_trans; [| apply eng_rel_fold].
+  - apply eng_rel_eng. reflexivity.
+  - intros s0 x. destruct (opt_is qo (a_q (snd x))); [apply eng_rel_refl | apply eng_rel_fail].
+Qed.
+
+Lemma eng_rel_established : forall s p, eng_rel s (on_connection_established s p).
+Proof.
+  intros s p. unfold on_connection_established.
+  destruct (aget p (peers s)); [apply eng_rel_refl |]. destruct (aget p (pdial s)); [| apply eng_rel_refl].
+  eapply eng_rel_trans; [| apply eng_rel_fold].
+  - apply eng_rel_eng. reflexivity.
+  - intros s0 a. pose proof (svc_open_eng s0 p) as E. destruct (svc_open s0 p) as [s2 r]. cbn [fst] in E.
+    destruct r; [apply eng_rel_eng; unfold track_sub, add_paction; proj; exact E |].
+    eapply eng_rel_trans; [apply eng_rel_eng; exact E | apply eng_rel_fail].
+Qed.
+
+Lemma eng_rel_outbound : forall s p sid, eng_rel s (on_outbound_substream s p sid).
+Proof.
+  intros s p sid. apply eng_rel_eng. unfold on_outbound_substream.
+  destruct (aget p (peers (w_psub s (adel sid (psub s))))) as [acts |]; [| reflexivity].
+  destruct (aget sid acts) as [a |]; [| reflexivity].
+  destruct (a_kind a); [destruct (peer_wanted _ _ _) | |]; reflexivity.
+Qed.
+
+Lemma eng_rel_open_failure : forall s sid, eng_rel s (on_substream_open_failure s sid).
+Proof.
+  intros s sid. unfold on_substream_open_failure. destruct (aget sid (psub s)) as [p |]; [| apply eng_rel_refl].
+  destruct (aget p (peers (w_psub s (adel sid (psub s))))) as [acts |]; [| apply eng_rel_eng; reflexivity].
+  eapply eng_rel_trans; [| apply eng_rel_disconnect]. apply eng_rel_eng. reflexivity.
+Qed.
+
+Lemma eng_rel_dial_failure : forall s p, eng_rel s (on_dial_failure s p).
+Proof.
+  intros s p. unfold on_dial_failure. destruct (aget p (pdial s)); [| apply eng_rel_refl].
+  eapply eng_rel_trans; [| apply eng_rel_fold].
+  - apply eng_rel_eng. reflexivity.
+  - intros s0 a. apply eng_rel_fail.
+Qed.
+
+Lemma eng_rel_inbound : forall s p id, eng_rel s (on_inbound_substream s p id).
+Proof.
+  intros s p id. apply eng_rel_eng. unfold on_inbound_substream. destruct (aget p (peers s)); reflexivity.
+Qed.
+
+Lemma eng_rel_on_message : forall g s id p qo m, eng_rel s (fst (on_message g s id p qo m)).
+Proof.
+  intros g s id p qo m. unfold on_message. destruct qo as [q |].
+  - destruct m; cbn [fst]; apply eng_rel_upd; first [apply qrel_response | apply qrel_resp_fail].
+  - destruct m as [ps | | [|] r ps | [|] | [|] pv ps |]; cbn [fst]; apply eng_rel_eng; reflexivity.
+Qed.
+
+(* the per-query bookkeeping behind a reported success *)
+Definition QI (es : list ev) (outs : list out) (G : list (N * N)) (q : N) (x : qstate) : Prop :=
+  match x with
+  | QLookup lk qr _ _ => lk = LPut \/ lk = LProv -> find_quorum q es = Some qr
+  | QToPeers qr _ => find_quorum q es = Some qr
+  | QTrack _ pd n need =>
+      exists targets qr S,
+        find_quorum q es = Some qr /\ In (OTrack q targets) outs /\
+        need = clamp qr (N.of_nat (length targets)) /\ NoDup S /\ N.of_nat (length S) = n /\
+        (forall p, In p S -> In (q, p) G /\ In p targets /\ ~ In p pd) /\
+        (forall p, In p pd -> In p targets)
+  end.
+
+Lemma QI_qrel : forall es outs G q x x', qrel x x' -> QI es outs G q x -> QI es outs G q x'.
+Proof.
+  intros es outs G q [lk qr c ls | qr ps | pv pd n need] [lk1 qr1 c1 ls1 | qr1 ps1 | pv1 pd1 n1 need1]; cbn; try tauto.
+  - intros [A B] H. subst. exact H.
+  - intros [A B] H. subst. exact H.
+  - intros (A & B & C & D) (targets & qr & S & H1 & H2 & H3 & H4 & H5 & H6 & H7). subst.
+    exists targets, qr, S. repeat split; auto.
+    + apply (H6 p H).
+    + apply (H6 p H).
+    + intro K. apply (proj2 (proj2 (H6 p H))). apply D. exact K.
+Qed.
+
+Lemma find_quorum_app : forall q a b,
+  find_quorum q (a ++ b) = match find_quorum q a with Some qr => Some qr | None => find_quorum q b end.
+Proof.
+  intros q a b. induction a as [| e t IH]; [reflexivity |]. cbn [app find_quorum].
+  destruct (quorum_of_ev q e); [reflexivity | exact IH].
+Qed.
+
+Lemma QI_mono : forall es outs G q x e o G',
+  QI es outs G q x -> QI (es ++ [e]) (outs ++ o) (G ++ G') q x.
+Proof.
+  intros es outs G q x e o G' H.
+  assert (Fq : forall qr, find_quorum q es = Some qr -> find_quorum q (es ++ [e]) = Some qr).
+  { intros qr E. rewrite find_quorum_app, E. reflexivity. }
+  destruct x as [lk qr c ls | qr ps | pv pd n need]; cbn in *.
+  - intro K. apply Fq. apply H. exact K.
+  - apply Fq. exact H.
+  - destruct H as (targets & qr & S & H1 & H2 & H3 & H4 & H5 & H6 & H7).
+    exists targets, qr, S. repeat split; auto.
+    + apply in_or_app. left. exact H2.
+    + apply in_or_app. left. apply (H6 p H).
+    + apply (H6 p H).
+    + apply (H6 p H).
+Qed.
+
+Definition honest (es : list ev) (outs : list out) (G : list (N * N)) (q : N) : Prop :=
+  exists targets qr S,
+    find_quorum q es = Some qr /\ In (OTrack q targets) outs /\ NoDup S /\
+    clamp qr (N.of_nat (length targets)) <= N.of_nat (length S) /\
+    (forall p, In p S -> In (q, p) G /\ In p targets).
+
+Definition is_success (o : out) : bool :=
+  match o with OPutSuccess _ | OProvSuccess _ => true | _ => false end.
+Definition success_of (q : N) (outs : list out) : Prop :=
+  In (OPutSuccess q) outs \/ In (OProvSuccess q) outs.
+
+Record HInv (es : list ev) (outs : list out) (G : list (N * N)) (seen : list N) (s : st) : Prop := mkHI {
+  hi_q : forall q x, aget q (eng s) = Some x -> QI es outs G q x;
+  hi_live : forall q, live q s = true -> In q seen;
+  hi_fq : forall q qr, find_quorum q es = Some qr -> In q seen;
+  hi_ok : forall q, success_of q outs -> honest es outs G q
+}.
+
+Lemma honest_mono : forall es outs G q e o G',
+  honest es outs G q -> honest (es ++ [e]) (outs ++ o) (G ++ G') q.
+Proof.
+  intros es outs G q e o G' (targets & qr & S & H1 & H2 & H3 & H4 & H5).
+  exists targets, qr, S. repeat split; auto.
+  - rewrite find_quorum_app, H1. reflexivity.
+  - apply in_or_app. left. exact H2.
+  - apply in_or_app. left. apply (H5 p H).
+  - apply (H5 p H).
+Qed.
+
+Lemma success_app : forall q outs o,
+  (forall x, In x o -> is_success x = false) -> success_of q (outs ++ o) -> success_of q outs.
+Proof.
+  intros q outs o Hn [H | H]; apply in_app_or in H; destruct H as [H | H].
+  - left. exact H.
+  - specialize (Hn _ H). discriminate Hn.
+  - right. exact H.
+  - specialize (Hn _ H). discriminate Hn.
+Qed.
+
+(* the increment of n_succeeded *)
+Definition okstep (p : N) (x x' : qstate) : Prop :=
+  exists pv pd n need pd',
+    x = QTrack pv pd n need /\ x' = QTrack pv pd' (n + 1) need /\ In p pd /\
+    (forall p', In p' pd' -> In p' pd /\ p' <> p).
+
+Lemma QI_okstep : forall es outs G q p x x',
+  okstep p x x' -> In (q, p) G -> QI es outs G q x -> QI es outs G q x'.
+Proof.
+  intros es outs G q p x x' (pv & pd & n & need & pd' & E1 & E2 & Hp & Hsub) HG H. subst x x'. cbn in *.
+  destruct H as (targets & qr & S & H1 & H2 & H3 & H4 & H5 & H6 & H7).
+  exists targets, qr, (p :: S). repeat split; auto.
+  - constructor; [| exact H4]. intro K. apply (proj2 (proj2 (H6 p K))). exact Hp.
+  - cbn [length]. lia.
+  - destruct H as [H | H]; [subst p0; exact HG | apply (H6 p0 H)].
+  - destruct H as [H | H]; [subst p0; apply H7; exact Hp | apply (H6 p0 H)].
+  - intro K. destruct (Hsub _ K) as [K1 K2]. destruct H as [H | H]; [congruence |].
+    apply (proj2 (proj2 (H6 p0 H))). exact K1.
+  - intros p0 K. apply H7. apply (Hsub _ K).
+Qed.
+
+(* a step whose effect on every query is qrel, or the counted send of (q, p) *)
+Lemma HInv_step_rel : forall es outs G seen s e o G' s',
+  HInv es outs G seen s ->
+  (forall q, quorum_of_ev q e = None) ->
+  (forall x, In x o -> is_success x = false) ->
+  live_same s s' ->
+  (forall q x', aget q (eng s') = Some x' ->
+     exists x, aget q (eng s) = Some x /\ (qrel x x' \/ exists p, In (q, p) G' /\ okstep p x x')) ->
+  HInv (es ++ [e]) (outs ++ o) (G ++ G') seen s'.
+Proof.
+  intros es outs G seen s e o G' s' [H1 H2 H3 H4] Hq Ho Hl Hr. constructor.
+  - intros q x' A. destruct (Hr q x' A) as (x & B & [R | (p & Hp & R)]).
+    + eapply QI_qrel; [exact R |]. apply QI_mono. apply H1. exact B.
+    + eapply QI_okstep; [exact R | apply in_or_app; right; exact Hp |]. apply QI_mono. apply H1. exact B.
+  - intros q L. apply H2. rewrite <- (Hl q). exact L.
+  - intros q qr F. rewrite find_quorum_app in F. destruct (find_quorum q es) as [qr0 |] eqn:E.
+    + eapply H3. exact E.
+    + cbn [find_quorum] in F. rewrite Hq in F. discriminate F.
+  - intros q Sx. apply honest_mono. apply H4. eapply success_app; eassumption.
+Qed.
+
+Lemma rel_only : forall s s' (G' : list (N * N)),
+  eng_rel s s' ->
+  forall q x', aget q (eng s') = Some x' ->
+     exists x, aget q (eng s) = Some x /\ (qrel x x' \/ exists p, In (q, p) G' /\ okstep p x x').
+Proof. intros s s' G' R q x' A. destruct (R q x' A) as (x & B & C). exists x. split; [exact B | left; exact C]. Qed.
+
+Lemma on_future_rel : forall g s id r q x',
+  aget q (eng (fst (on_future g s id r))) = Some x' ->
+  exists x, aget q (eng s) = Some x /\
+            (qrel x x' \/ exists p, In (q, p) (sent_by s (EFut id r)) /\ okstep p x x').
+Proof.
+  intros g s id r q x'. unfold on_future, sent_by.
+  destruct (find_fut id (futs s)) as [f |]; [| apply rel_only; apply eng_rel_refl].
+  destruct (res_ok (f_kind f) r); [| apply rel_only; apply eng_rel_refl]. cbn [andb].
+  set (s1 := w_futs s (del_fut id (futs s))).
+  (* register_send_success on (q0, peer of the future) *)
+  assert (SO : forall q0 s2, eng_rel (eng_send_ok s1 q0 (f_peer f)) s2 ->
+            aget q (eng s2) = Some x' ->
+            exists x, aget q (eng s) = Some x /\
+                      (qrel x x' \/ exists p, In (q, p) [(q0, f_peer f)] /\ okstep p x x')).
+  { intros q0 s2 R A. destruct (R q x' A) as (y & B & C). unfold eng_send_ok in B. rewrite upd_q_get in B.
+    destruct (N.eqb_spec q q0) as [E | E].
+    - subst q0. change (eng s1) with (eng s) in B.
+      destruct (aget q (eng s)) as [x |] eqn:Ex; cbn [option_map] in B; [| discriminate].
+      inversion B. subst y. clear B. exists x. split; [reflexivity |].
+      destruct x as [lk qr c ls | qr ps | pv pd n need]; cbn [q_send_ok] in C; try (left; exact C).
+      destruct (nmem (f_peer f) pd) eqn:Em; [| left; exact C].
+      destruct x' as [lk1 qr1 c1 ls1 | qr1 ps1 | pv1 pd1 n1 need1]; cbn in C; try contradiction.
+      destruct C as (C1 & C2 & C3 & C4). subst. right. exists (f_peer f). split; [left; reflexivity |].
+      exists pv, pd, n, need, pd1. repeat split; auto.
+      + apply nmem_In. exact Em.
+      + apply C4 in H. apply nremove_In in H. apply H.
+      + apply C4 in H. apply nremove_In in H. apply H.
+    - change (eng s1) with (eng s) in B. exists y. split; [exact B | left; exact C]. }
+  destruct r as [| | | m |]; cbn [sent_res fst].
+  - destruct (f_q f) as [q0 |]; [apply SO; apply eng_rel_refl | apply (rel_only s s1); apply eng_rel_eng; reflexivity].
+  - destruct (f_q f) as [q0 |]; [apply SO; apply eng_rel_refl | apply (rel_only s s1); apply eng_rel_eng; reflexivity].
+  - apply (rel_only s (disconnect_peer s1 (f_peer f) (f_q f))).
+    eapply eng_rel_trans; [apply (eng_rel_eng s s1); reflexivity | apply eng_rel_disconnect].
+  - destruct (f_q f) as [q0 |]; [apply SO; apply eng_rel_on_message |].
+    apply (rel_only s (fst (on_message g s1 id (f_peer f) None (trunc_msg g m)))).
+    eapply eng_rel_trans; [apply (eng_rel_eng s s1); reflexivity | apply eng_rel_on_message].
+  - apply (rel_only s (disconnect_peer s1 (f_peer f) (f_q f))).
+    eapply eng_rel_trans; [apply (eng_rel_eng s s1); reflexivity | apply eng_rel_disconnect].
+Qed.
+
+Lemma on_future_nosuccess : forall g s id r x, In x (snd (on_future g s id r)) -> is_success x = false.
+Proof.
+  intros g s id r x H. pose proof (on_future_outs g s id r x H) as T. destruct x; cbn in *; congruence.
+Qed.
+
+Lemma HInv_intro_step : forall es outs G seen s e o G' s',
+  HInv es outs G seen s ->
+  (forall q, quorum_of_ev q e = None) ->
+  (forall q, live q s' = true -> live q s = true) ->
+  (forall q x', aget q (eng s') = Some x' -> QI (es ++ [e]) (outs ++ o) (G ++ G') q x') ->
+  (forall q, success_of q (outs ++ o) ->
+             success_of q outs \/ honest (es ++ [e]) (outs ++ o) (G ++ G') q) ->
+  HInv (es ++ [e]) (outs ++ o) (G ++ G') seen s'.
+Proof.
+  intros es outs G seen s e o G' s' [H1 H2 H3 H4] Hq Hl Hi Hs. constructor.
+  - exact Hi.
+  - intros q L. apply H2. apply Hl. exact L.
+  - intros q qr F. rewrite find_quorum_app in F. destruct (find_quorum q es) as [qr0 |] eqn:E.
+    + eapply H3. exact E.
+    + cbn [find_quorum] in F. rewrite Hq in F. discriminate F.
+  - intros q Sx. destruct (Hs q Sx) as [K | K]; [apply honest_mono; apply H4; exact K | exact K].
+Qed.
+
+Lemma QI_of_rel : forall es outs G s s' e o G',
+  (forall q x, aget q (eng s) = Some x -> QI es outs G q x) ->
+  eng_rel s s' ->
+  forall q x', aget q (eng s') = Some x' -> QI (es ++ [e]) (outs ++ o) (G ++ G') q x'.
+Proof.
+  intros es outs G s s' e o G' H R q x' A. destruct (R q x' A) as (x & B & C).
+  eapply QI_qrel; [exact C |]. apply QI_mono. apply H. exact B.
+Qed.
+
+Lemma eng_rel_set_q : forall s q x x', aget q (eng s) = Some x -> qrel x x' -> eng_rel s (set_q s q x').
+Proof.
+  intros s q x x' A R q' y. rewrite set_q_get. destruct (N.eqb_spec q' q) as [E | E].
+  - subst q'. rewrite A. cbn [option_map]. intro H. inversion H. subst y. exists x. tauto.
+  - intro H. exists y. split; [exact H | apply qrel_refl].
+Qed.
+
+Lemma eng_rel_del_q : forall s q, eng_rel s (del_q s q).
+Proof.
+  intros s q q' y. unfold del_q. proj. intro H. apply aget_adel_some in H. exists y. split; [apply H | apply qrel_refl].
+Qed.
+
+Lemma eng_rel_trk_fold : forall pv q l s, eng_rel s (fold_left (trk_step pv q) l s).
+Proof.
+  intros pv q l. apply eng_rel_fold. intros s0 p. unfold trk_step.
+  pose proof (open_or_dial_eng s0 p (mkAct (if pv then AProv else APut) q)) as E.
+  destruct (open_or_dial s0 p (mkAct (if pv then AProv else APut) q)) as [s2 ok]. cbn [fst] in E.
+  destruct ok; [apply eng_rel_eng; exact E |].
+  eapply eng_rel_trans; [apply eng_rel_eng; exact E | apply eng_rel_upd; apply qrel_send_fail].
+Qed.
+
+(* starting the send phase establishes the bookkeeping of the new tracking context *)
+Lemma QI_start_track : forall es outs G s pv q0 l qr e o G',
+  (forall q x, aget q (eng s) = Some x -> QI es outs G q x) ->
+  find_quorum q0 es = Some qr -> In (OTrack q0 l) o ->
+  forall q x', aget q (eng (start_track (del_q s q0) pv q0 l qr)) = Some x' ->
+               QI (es ++ [e]) (outs ++ o) (G ++ G') q x'.
+Proof.
+  intros es outs G s pv q0 l qr e o G' H Fq Ho q x' A. rewrite start_track_fold in A.
+  set (s1 := w_eng (del_q s q0)
+                   (aset q0 (QTrack pv (ndedup l) 0 (clamp qr (N.of_nat (length l)))) (eng (del_q s q0)))) in A.
+  destruct (eng_rel_trk_fold pv q0 l s1 q x' A) as (x & B & C). eapply QI_qrel; [exact C |].
+  subst s1. proj_in B. destruct (N.eq_dec q q0) as [E | E].
+  - subst q. rewrite aget_aset_same in B. inversion B. subst x. cbn [QI].
+    exists l, qr, []. split; [rewrite find_quorum_app, Fq; reflexivity |].
+    split; [apply in_or_app; right; exact Ho |]. split; [reflexivity |]. split; [constructor |].
+    split; [reflexivity |]. split; [intros p [] |]. intros p Hp. apply ndedup_In. exact Hp.
+  - rewrite aget_aset_other in B by exact E. unfold del_q in B. proj_in B. rewrite aget_adel_other in B by exact E.
+    apply QI_mono. apply H. exact B.
+Qed.
+
+Lemma live_start_track_sub : forall s pv q0 l qr q,
+  live q0 s = true -> live q (start_track (del_q s q0) pv q0 l qr) = true -> live q s = true.
+Proof.
+  intros s pv q0 l qr q L0 L. rewrite live_start_track, live_del in L.
+  destruct (N.eqb_spec q q0) as [E | E]; [subst q; exact L0 |]. cbn in L. exact L.
+Qed.
+
+Lemma success_single : forall q outs o,
+  success_of q (outs ++ [o]) -> success_of q outs \/ (o = OPutSuccess q \/ o = OProvSuccess q).
+Proof.
+  intros q outs o [H | H]; apply in_app_or in H; destruct H as [H | [H | []]]; auto.
+  - left. left. exact H.
+  - left. right. exact H.
+Qed.
+
+Lemma HInv_serve : forall es outs G seen s q0,
+  HInv es outs G seen s ->
+  HInv (es ++ [EServe q0]) (outs ++ snd (fst (serve s q0))) (G ++ []) seen (fst (fst (serve s q0))).
+Proof.
+  intros es outs G seen s q0 HI. pose proof HI as [H1 H2 H3 H4].
+  assert (Hq : forall q, quorum_of_ev q (EServe q0) = None) by reflexivity.
+  assert (Same : HInv (es ++ [EServe q0]) (outs ++ []) (G ++ []) seen s).
+  { apply (HInv_intro_step es outs G seen s (EServe q0) [] [] s HI Hq); [auto | |].
+    - intros q x A. apply QI_mono. apply H1. exact A.
+    - intros q Sx. left. rewrite app_nil_r in Sx. exact Sx. }
+  (* steps that only move a query along qrel and report nothing final *)
+  assert (Rel : forall s' o, eng_rel s s' -> (forall q, live q s' = true -> live q s = true) ->
+                  (forall x, In x o -> is_success x = false) ->
+                  HInv (es ++ [EServe q0]) (outs ++ o) (G ++ []) seen s').
+  { intros s' o R L Ho. apply (HInv_intro_step es outs G seen s (EServe q0) o [] s' HI Hq L).
+    - apply (QI_of_rel es outs G s s'); assumption.
+    - intros q Sx. left. eapply success_app; eassumption. }
+  assert (Del : forall o, is_success o = false ->
+                  HInv (es ++ [EServe q0]) (outs ++ [o]) (G ++ []) seen (del_q s q0)).
+  { intros o Ho. apply Rel; [apply eng_rel_del_q | |].
+    - intros q L. rewrite live_del in L. apply andb_prop in L. apply L.
+    - intros x [Hx | []]. subst x. exact Ho. }
+  unfold serve.
+  destruct (aget q0 (eng s)) as [[lk qr c ls | qr ps | pv pd n need] |] eqn:Eq; cbn [fst snd]; [| | | exact Same].
+  - assert (L0 : live q0 s = true) by (unfold live; rewrite Eq; reflexivity).
+    assert (Trk : forall pv l, lk = LPut \/ lk = LProv ->
+              HInv (es ++ [EServe q0]) (outs ++ [OTrack q0 l]) (G ++ []) seen (start_track (del_q s q0) pv q0 l qr)).
+    { intros pv l Hk. apply (HInv_intro_step es outs G seen s (EServe q0) [OTrack q0 l] [] _ HI Hq).
+      - intros q L. eapply live_start_track_sub; eassumption.
+      - apply (QI_start_track es outs G s pv q0 l qr); [exact H1 | | left; reflexivity].
+        specialize (H1 _ _ Eq). cbn [QI] in H1. apply H1. exact Hk.
+      - intros q Sx. left. eapply success_app; [| exact Sx]. intros x [Hx | []]. subst x. reflexivity. }
+    destruct (L.next_action c ls 0) as [ls' a]. destruct a as [| p | | l | p r | | l]; cbn [fst snd].
+    + exact Same.
+    + pose proof (open_or_dial_eng (set_q s q0 (QLookup lk qr c ls')) p (mkAct AFind q0)) as E.
+      destruct (open_or_dial (set_q s q0 (QLookup lk qr c ls')) p (mkAct AFind q0)) as [s2 ok]. cbn [fst snd] in *.
+      assert (R2 : eng_rel s s2).
+      { eapply eng_rel_trans; [| apply eng_rel_eng; exact E]. eapply eng_rel_set_q; [exact Eq | cbn; auto]. }
+      assert (L2 : forall q, live q s2 = true -> live q s = true).
+      { intros q L. unfold live in L. rewrite E in L. fold (live q (set_q s q0 (QLookup lk qr c ls'))) in L.
+        rewrite live_set_q in L. exact L. }
+      destruct ok; [apply Rel; [exact R2 | exact L2 | intros x []] |].
+      apply Rel; [eapply eng_rel_trans; [exact R2 | apply eng_rel_fail] | | intros x []].
+      intros q L. rewrite live_eng_fail in L. apply L2. exact L.
+    + apply Del. reflexivity.
+    + destruct lk; first [apply Del; reflexivity | apply Trk; tauto].
+    + apply Rel; [eapply eng_rel_set_q; [exact Eq | cbn; auto] | | intros x [Hx | []]; subst x; reflexivity].
+      intros q L. rewrite live_set_q in L. exact L.
+    + apply Del. reflexivity.
+    + apply Del. reflexivity.
+  - assert (L0 : live q0 s = true) by (unfold live; rewrite Eq; reflexivity).
+    apply (HInv_intro_step es outs G seen s (EServe q0) [OTrack q0 ps] [] _ HI Hq).
+    + intros q L. eapply live_start_track_sub; eassumption.
+    + apply (QI_start_track es outs G s false q0 ps qr); [exact H1 | | left; reflexivity].
+      specialize (H1 _ _ Eq). exact H1.
+    + intros q Sx. left. eapply success_app; [| exact Sx]. intros x [Hx | []]. subst x. reflexivity.
+  - destruct pd as [| p0 pd']; cbn [fst snd]; [| exact Same].
+    apply (HInv_intro_step es outs G seen s (EServe q0) _ [] _ HI Hq).
+    + intros q L. rewrite live_del in L. apply andb_prop in L. apply L.
+    + apply (QI_of_rel es outs G s (del_q s q0)); [exact H1 | apply eng_rel_del_q].
+    + intros q Sx. apply success_single in Sx. destruct Sx as [Sx | Sx]; [left; exact Sx |]. right.
+      assert (need <=? n = true /\ q = q0) as [Hn Eqq].
+      { destruct (need <=? n); [destruct pv |]; destruct Sx as [Sx | Sx]; inversion Sx; auto. }
+      subst q. specialize (H1 _ _ Eq). cbn [QI] in H1.
+      destruct H1 as (targets & qr & S & K1 & K2 & K3 & K4 & K5 & K6 & K7).
+      exists targets, qr, S. split; [rewrite find_quorum_app, K1; reflexivity |].
+      split; [apply in_or_app; left; exact K2 |]. split; [exact K4 |].
+      split; [apply N.leb_le in Hn; lia |].
+      intros p Hp. split; [apply in_or_app; left; apply (K6 p Hp) | apply (K6 p Hp)].
+Qed.
+
+Lemma HInv_start : forall es outs G seen s e q0 x0 o,
+  HInv es outs G seen s -> ~ In q0 seen ->
+  (forall q, q <> q0 -> quorum_of_ev q e = None) ->
+  (forall x, In x o -> is_success x = false) ->
+  QI (es ++ [e]) (outs ++ o) (G ++ []) q0 x0 ->
+  HInv (es ++ [e]) (outs ++ o) (G ++ []) (q0 :: seen) (w_eng s (aset q0 x0 (eng s))).
+Proof.
+  intros es outs G seen s e q0 x0 o [H1 H2 H3 H4] Hn Hq Ho Hx. constructor.
+  - intros q x. proj. destruct (N.eq_dec q q0) as [E | E].
+    + subst q. rewrite aget_aset_same. intro H. inversion H. subst x. exact Hx.
+    + rewrite aget_aset_other by exact E. intro A. apply QI_mono. apply H1. exact A.
+  - intros q L. rewrite live_aset in L. destruct (N.eqb_spec q q0) as [E | E]; [left; congruence |].
+    right. apply H2. exact L.
+  - intros q qr F. rewrite find_quorum_app in F. destruct (find_quorum q es) as [qr0 |] eqn:E.
+    + right. eapply H3. exact E.
+    + cbn [find_quorum] in F. destruct (N.eq_dec q q0) as [E2 | E2]; [left; congruence |].
+      rewrite (Hq q E2) in F. discriminate F.
+  - intros q Sx. apply honest_mono. apply H4. eapply success_app; eassumption.
+Qed.
+
+Lemma HInv_same_start : forall es outs G seen s e q0 o,
+  HInv es outs G seen s ->
+  (forall q, quorum_of_ev q e = None) ->
+  (forall x, In x o -> is_success x = false) ->
+  HInv (es ++ [e]) (outs ++ o) (G ++ []) (q0 :: seen) s.
+Proof.
+  intros es outs G seen s e q0 o HI Hq Ho.
+  destruct (HInv_intro_step es outs G seen s e o [] s HI Hq) as [K1 K2 K3 K4]; [auto | | |].
+  - intros q x A. apply QI_mono. apply (hi_q _ _ _ _ _ HI). exact A.
+  - intros q Sx. left. eapply success_app; eassumption.
+  - constructor; [exact K1 | intros q L; right; apply K2; exact L | intros q qr F; right; eapply K3; exact F | exact K4].
+Qed.
+
+Lemma find_quorum_fresh : forall es outs G seen s q0,
+  HInv es outs G seen s -> ~ In q0 seen -> find_quorum q0 es = None.
+Proof.
+  intros es outs G seen s q0 HI Hn. destruct (find_quorum q0 es) as [qr |] eqn:E; [| reflexivity].
+  exfalso. apply Hn. eapply (hi_fq _ _ _ _ _ HI). exact E.
+Qed.
+
+Lemma HInv_step : forall g es outs G seen s e,
+  HInv es outs G seen s ->
+  (forall q0, started_by e = Some q0 -> ~ In q0 seen) ->
+  HInv (es ++ [e]) (outs ++ snd (fst (step g s e))) (G ++ sent_by s e)
+       (match started_by e with Some q0 => q0 :: seen | None => seen end)
+       (fst (fst (step g s e))).
+Proof.
+  intros g es outs G seen s e HI Hfr.
+  assert (Plain : forall s', eng_rel s s' -> live_same s s' ->
+            (forall q, quorum_of_ev q e = None) ->
+            HInv (es ++ [e]) (outs ++ []) (G ++ []) seen s').
+  { intros s' R L Hq. apply (HInv_intro_step es outs G seen s e [] [] s' HI Hq).
+    - intros q K. rewrite <- (L q). exact K.
+    - apply (QI_of_rel es outs G s s'); [apply (hi_q _ _ _ _ _ HI) | exact R].
+    - intros q Sx. left. rewrite app_nil_r in Sx. exact Sx. }
+  destruct e; cbn [step started_by sent_by].
+  - (* command *)
+    specialize (Hfr q eq_refl). pose proof (find_quorum_fresh _ _ _ _ _ q HI Hfr) as Fq.
+    assert (Start : forall lk qr c0 o, (forall x, In x o -> is_success x = false) ->
+              (lk = LPut \/ lk = LProv -> quorum_of_ev q (ECmd q c dists seeds) = Some qr) ->
+              (forall q1, q1 <> q -> quorum_of_ev q1 (ECmd q c dists seeds) = None) ->
+              HInv (es ++ [ECmd q c dists seeds]) (outs ++ o) (G ++ []) (q :: seen)
+                   (start_lookup g s q lk qr c0 seeds)).
+    { intros lk qr c0 o Ho Hk Hq1. unfold start_lookup. apply HInv_start; try assumption.
+      cbn [QI]. intro K. rewrite find_quorum_app, Fq. cbn [find_quorum]. rewrite (Hk K). reflexivity. }
+    assert (Other : forall q1, q1 <> q -> quorum_of_ev q1 (ECmd q c dists seeds) = None).
+    { intros q1 E. cbn [quorum_of_ev]. destruct c; try reflexivity;
+        destruct (N.eqb_spec q q1); [congruence | reflexivity | congruence | reflexivity]. }
+    unfold on_cmd. destruct c as [| qr | qr | qr local |]; cbn [fst snd].
+    + apply Start; [intros x [] | intros [K | K]; discriminate K | exact Other].
+    + apply Start; [intros x [] | intros _; cbn [quorum_of_ev]; rewrite N.eqb_refl; reflexivity | exact Other].
+    + apply Start; [intros x [] | intros _; cbn [quorum_of_ev]; rewrite N.eqb_refl; reflexivity | exact Other].
+    + destruct qr; destruct local; cbn [fst snd];
+        first [ apply HInv_same_start; [exact HI | reflexivity | intros x Hx; cbn [In] in Hx; intuition; subst; reflexivity]
+              | apply Start; [intros x Hx; cbn [In] in Hx; intuition; subst; reflexivity
+                             | intros [K | K]; discriminate K | exact Other] ].
+    + apply Start; [intros x [] | intros [K | K]; discriminate K | exact Other].
+  - (* put_record_to_peers *)
+    specialize (Hfr q eq_refl). pose proof (find_quorum_fresh _ _ _ _ _ q HI Hfr) as Fq. cbn [fst snd].
+    apply HInv_start; [exact HI | exact Hfr | | intros x [] |].
+    + intros q1 E. cbn [quorum_of_ev]. destruct (N.eqb_spec q q1); [congruence | reflexivity].
+    + cbn [QI]. rewrite find_quorum_app, Fq. cbn [find_quorum quorum_of_ev]. rewrite N.eqb_refl. reflexivity.
+  - cbn [fst snd]. apply Plain; [apply eng_rel_refl | apply live_same_refl | reflexivity].
+  - apply HInv_serve. exact HI.
+  - destruct (aget p (conn s)); cbn [fst snd]; [apply Plain; [apply eng_rel_refl | apply live_same_refl | reflexivity] |].
+    apply Plain; [| | reflexivity].
+    + eapply eng_rel_trans; [| apply eng_rel_established]. apply eng_rel_eng. reflexivity.
+    + eapply live_same_trans; [| apply live_established]. apply live_same_eng. reflexivity.
+  - destruct (aget p (conn s)); cbn [fst snd]; [| apply Plain; [apply eng_rel_refl | apply live_same_refl | reflexivity]].
+    apply Plain; [| | reflexivity].
+    + eapply eng_rel_trans; [| apply eng_rel_disconnect]. apply eng_rel_eng. reflexivity.
+    + eapply live_same_trans; [| apply live_disconnect]. apply live_same_eng. reflexivity.
+  - destruct (aget p (conn s)); cbn [fst snd]; apply Plain; try reflexivity;
+      first [apply eng_rel_refl | apply live_same_refl | apply eng_rel_eng; reflexivity | apply live_same_eng; reflexivity].
+  - cbn [fst snd]. apply Plain; [apply eng_rel_eng; reflexivity | apply live_same_eng; reflexivity | reflexivity].
+  - cbn [fst snd]. apply Plain; [apply eng_rel_outbound | apply live_outbound | reflexivity].
+  - cbn [fst snd]. apply Plain; [apply eng_rel_open_failure | apply live_open_failure | reflexivity].
+  - cbn [fst snd]. apply Plain; [apply eng_rel_dial_failure | apply live_dial_failure | reflexivity].
+  - cbn [fst snd]. apply Plain; [apply eng_rel_inbound | apply live_inbound | reflexivity].
+  - (* executor completion *)
+    pose proof (on_future_rel g s id r) as R. pose proof (live_on_future g s id r) as L.
+    pose proof (on_future_nosuccess g s id r) as T. fold (sent_by s (EFut id r)).
+    destruct (on_future g s id r) as [s' o]. cbn [fst snd] in *.
+    apply (HInv_step_rel es outs G seen s (EFut id r) o (sent_by s (EFut id r)) s' HI); try assumption. reflexivity.
+Qed.
+
+Lemma run_HInv : forall g es pre outs G seen s,
+  HInv pre outs G seen s -> fresh_ids seen es ->
+  exists seen', HInv (pre ++ es) (outs ++ snd (run g s es)) (G ++ sends g s es) seen' (fst (run g s es)).
+Proof.
+  intros g es. induction es as [| e t IH]; intros pre outs G seen s HI Hf.
+  - exists seen. cbn [run sends fst snd]. rewrite !app_nil_r. exact HI.
+  - assert (Hfr : forall q0, started_by e = Some q0 -> ~ In q0 seen).
+    { intros q0 E. cbn [fresh_ids] in Hf. rewrite E in Hf. apply Hf. }
+    pose proof (HInv_step g pre outs G seen s e HI Hfr) as H1.
+    assert (Hf1 : fresh_ids (match started_by e with Some q0 => q0 :: seen | None => seen end) t).
+    { cbn [fresh_ids] in Hf. destruct (started_by e); [apply Hf | exact Hf]. }
+    destruct (IH _ _ _ _ _ H1 Hf1) as [seen' H2]. exists seen'.
+    rewrite run_cons. cbn [fst snd sends].
+    rewrite <- !app_assoc in H2. cbn [app] in H2. exact H2.
+Qed.
+
+Lemma HInv_st0 : forall m, HInv [] [] [] [] (st0 m).
+Proof.
+  intro m. constructor.
+  - intros q x H. discriminate H.
+  - intros q H. discriminate H.
+  - intros q qr H. discriminate H.
+  - intros q [H | H]; destruct H.
+Qed.
+
+Lemma quorum_honest : forall g m es q,
+  fresh_ids [] es ->
+  let outs := snd (run g (st0 m) es) in
+  In (OPutSuccess q) outs \/ In (OProvSuccess q) outs ->
+  exists targets qr S,
+    find_quorum q es = Some qr /\ In (OTrack q targets) outs /\ NoDup S /\
+    clamp qr (N.of_nat (length targets)) <= N.of_nat (length S) /\
+    (forall p, In p S -> In (q, p) (sends g (st0 m) es) /\ In p targets).
+Proof.
+  intros g m es q Hf outs Sx.
+  destruct (run_HInv g es [] [] [] [] (st0 m) (HInv_st0 m) Hf) as [seen' HI]. cbn [app] in HI.
+  apply (hi_ok _ _ _ _ _ HI). exact Sx.
+Qed.
+
+(* ------------------------------------------------------------------ the drain loop terminates *)
+
+Lemma next_send_cands : forall c ls ls' p,
+  L.next_action c ls 0 = (ls', L.ASend p) ->
+  S (length (L.cands ls')) = length (L.cands ls) /\ L.recq ls' = L.recq ls.
+Proof.
+  intros c ls ls' p E. pose proof (LP.next_action_shape c ls 0) as Sh. rewrite E in Sh. cbn [fst snd] in Sh.
+  inversion Sh; subst; try discriminate.
+  match goal with H1 : L.cands ls = _ :: _ |- _ => rewrite H1 end.
+  split; [reflexivity | assumption].
+Qed.
+
+Lemma next_partial_recq : forall c ls ls' p r,
+  L.next_action c ls 0 = (ls', L.APartial p r) ->
+  L.cands ls' = L.cands ls /\ S (length (L.recq ls')) = length (L.recq ls).
+Proof.
+  intros c ls ls' p r E. pose proof (LP.next_action_shape c ls 0) as Sh. rewrite E in Sh. cbn [fst snd] in Sh.
+  inversion Sh; subst; try discriminate.
+  match goal with H1 : L.recq ls = _ :: _ |- _ => rewrite H1 end. split; [assumption | reflexivity].
+Qed.
+
+Lemma on_failure_weight : forall c ls p,
+  L.cands (L.on_failure c ls p) = L.cands ls /\ L.recq (L.on_failure c ls p) = L.recq ls.
+Proof.
+  intros c ls p. unfold L.on_failure. destruct (L.done ls); [tauto |]. destruct (L.pmem p (L.pend ls)); cbn; tauto.
+Qed.
+
+Lemma q_fail_weight : forall p x, qweight (q_resp_fail p (q_send_fail p x)) = qweight x.
+Proof.
+  intros p [lk qr c ls | qr ps | pv pd n need]; cbn [q_send_fail q_resp_fail qweight]; [| reflexivity | reflexivity].
+  destruct (on_failure_weight c ls p) as [A B]. rewrite A, B. reflexivity.
+Qed.
+
+Lemma start_track_get : forall s pv q0 l qr q,
+  (q <> q0 -> aget q (eng (start_track s pv q0 l qr)) = aget q (eng s)) /\
+  qw (aget q0 (eng (start_track s pv q0 l qr))) = 1%nat.
+Proof.
+  intros s pv q0 l qr q. rewrite start_track_fold.
+  set (s1 := w_eng s (aset q0 (QTrack pv (ndedup l) 0 (clamp qr (N.of_nat (length l)))) (eng s))).
+  assert (F : forall l0 s0,
+            (q <> q0 -> aget q (eng (fold_left (trk_step pv q0) l0 s0)) = aget q (eng s0)) /\
+            (qw (aget q0 (eng s0)) = 1%nat /\ (exists a b c d, aget q0 (eng s0) = Some (QTrack a b c d)) ->
+             qw (aget q0 (eng (fold_left (trk_step pv q0) l0 s0))) = 1%nat /\
+             (exists a b c d, aget q0 (eng (fold_left (trk_step pv q0) l0 s0)) = Some (QTrack a b c d)))).
+  { induction l0 as [| p t IH]; intro s0; cbn [fold_left]; [tauto |].
+    assert (St : (q <> q0 -> aget q (eng (trk_step pv q0 s0 p)) = aget q (eng s0)) /\
+                 ((exists a b c d, aget q0 (eng s0) = Some (QTrack a b c d)) ->
+                  exists a b c d, aget q0 (eng (trk_step pv q0 s0 p)) = Some (QTrack a b c d))).
+    { unfold trk_step. pose proof (open_or_dial_eng s0 p (mkAct (if pv then AProv else APut) q0)) as E.
+      destruct (open_or_dial s0 p (mkAct (if pv then AProv else APut) q0)) as [s2 ok]. cbn [fst] in E.
+      destruct ok; [rewrite E; tauto |]. unfold eng_send_fail. rewrite !upd_q_get, E. split.
+      - intro Hn. destruct (N.eqb_spec q q0); [congruence | reflexivity].
+      - intros (a & b & c & d & H). rewrite N.eqb_refl, H. cbn. eauto. }
+    destruct St as [St1 St2]. destruct (IH (trk_step pv q0 s0 p)) as [I1 I2]. split.
+    - intro Hn. rewrite (I1 Hn). apply St1. exact Hn.
+    - intros [_ Hx]. apply I2. destruct (St2 Hx) as (a & b & c & d & H). rewrite H. split; [reflexivity | eauto]. }
+  destruct (F l s1) as [F1 F2]. split.
+  - intro Hn. rewrite (F1 Hn). subst s1. proj. apply aget_aset_other. exact Hn.
+  - apply F2. subst s1. proj. rewrite aget_aset_same. split; [reflexivity | eauto].
+Qed.
+
+Lemma serve_progress : forall s q0 q,
+  snd (serve s q0) = true ->
+  (q <> q0 -> aget q (eng (fst (fst (serve s q0)))) = aget q (eng s)) /\
+  (qw (aget q0 (eng (fst (fst (serve s q0))))) < qw (aget q0 (eng s)))%nat.
+Proof.
+  intros s q0 q. unfold serve.
+  destruct (aget q0 (eng s)) as [[lk qr c ls | qr ps | pv pd n need] |] eqn:Eq; cbn [fst snd]; [| | | discriminate].
+  - assert (Del : (q <> q0 -> aget q (eng (del_q s q0)) = aget q (eng s)) /\
+                  (qw (aget q0 (eng (del_q s q0))) < qw (Some (QLookup lk qr c ls)))%nat).
+    { unfold del_q. proj. rewrite aget_adel_same. split; [intro Hn; apply aget_adel_other; exact Hn | cbn; lia]. }
+    assert (Trk : forall pv l,
+              (q <> q0 -> aget q (eng (start_track (del_q s q0) pv q0 l qr)) = aget q (eng s)) /\
+              (qw (aget q0 (eng (start_track (del_q s q0) pv q0 l qr))) < qw (Some (QLookup lk qr c ls)))%nat).
+    { intros pv l. destruct (start_track_get (del_q s q0) pv q0 l qr q) as [T1 T2]. rewrite T2. split; [| cbn; lia].
+      intro Hn. rewrite (T1 Hn). unfold del_q. proj. apply aget_adel_other. exact Hn. }
+    destruct (L.next_action c ls 0) as [ls' a] eqn:En. destruct a as [| p | | l | p r | | l]; cbn [fst snd].
+    + discriminate.
+    + intros _. destruct (next_send_cands _ _ _ _ En) as [Hc Hr].
+      pose proof (open_or_dial_eng (set_q s q0 (QLookup lk qr c ls')) p (mkAct AFind q0)) as E.
+      destruct (open_or_dial (set_q s q0 (QLookup lk qr c ls')) p (mkAct AFind q0)) as [s2 ok]. cbn [fst snd] in *.
+      assert (G0 : aget q0 (eng s2) = Some (QLookup lk qr c ls')).
+      { rewrite E, set_q_get, N.eqb_refl, Eq. reflexivity. }
+      assert (Gq : q <> q0 -> aget q (eng s2) = aget q (eng s)).
+      { intro Hn. rewrite E, set_q_get. destruct (N.eqb_spec q q0); [congruence | reflexivity]. }
+      destruct ok.
+      * split; [exact Gq |]. rewrite G0. cbn [qw qweight]. rewrite Hr. lia.
+      * split.
+        -- intro Hn. rewrite eng_fail_get. destruct (N.eqb_spec q q0); [congruence | apply Gq; exact Hn].
+        -- rewrite eng_fail_get, N.eqb_refl, G0. cbn [option_map qw]. rewrite q_fail_weight. cbn [qweight]. rewrite Hr. lia.
+    + intros _. exact Del.
+    + intros _. destruct lk; first [exact Del | apply Trk].
+    + intros _. destruct (next_partial_recq _ _ _ _ _ En) as [Hc Hr]. split.
+      * intro Hn. rewrite set_q_get. destruct (N.eqb_spec q q0); [congruence | reflexivity].
+      * rewrite set_q_get, N.eqb_refl, Eq. cbn [option_map qw qweight]. rewrite Hc. lia.
+    + intros _. exact Del.
+    + intros _. exact Del.
+  - intros _. destruct (start_track_get (del_q s q0) false q0 ps qr q) as [T1 T2]. rewrite T2. split; [| cbn; lia].
+    intro Hn. rewrite (T1 Hn). unfold del_q. proj. apply aget_adel_other. exact Hn.
+  - destruct pd; cbn [fst snd]; [| discriminate]. intros _. unfold del_q. proj. rewrite aget_adel_same.
+    split; [intro Hn; apply aget_adel_other; exact Hn | cbn; lia].
+Qed.
